@@ -73,6 +73,13 @@ pub struct Shadow {
     pub total_at_wake: usize,
     pub marked_available: bool,
     pub pending_fault: bool,
+    /// the rho-bound monitor applies to the running cycle: it woke inside a debt-driven call, and
+    /// since then the pacing was not changed and no artificial debt was removed
+    pub rho_valid: bool,
+    /// strongly reachable objects at the moment the MarkedArena was handed out (finalize entry):
+    /// `is_dead` is specified relative to that moment, not to later mutations inside the callback
+    pub fin_reach: HashSet<u32>,
+    pub fin_mutated: bool,
 }
 
 impl Shadow {
@@ -431,6 +438,12 @@ impl Shadow {
             Op::New(_) | Op::Pacing(_) | Op::Adjust(_) => {
                 if let Op::Pacing(p) = op {
                     self.pacing = Some(*p);
+                    self.rho_valid = false;
+                }
+                if let Op::Adjust(x) = op {
+                    if x.num < 0 {
+                        self.rho_valid = false;
+                    }
                 }
                 self.prev_finish_cycle = was_finish_cycle && !matches!(op, Op::New(_));
             }
@@ -445,6 +458,29 @@ impl Shadow {
                     self.mutated_since_wake = faulted;
                     self.allocs_since_wake = 0;
                     self.total_at_wake = obs.total_before;
+                    // woken by debt (a PayDebt method) at the very start of this call
+                    self.rho_valid = matches!(method, Method::CollectDebt | Method::CycleDebt | Method::MarkDebt)
+                        && obs.steps.starts_with('W') && obs.debt_before > 0.0 && !faulted;
+                }
+                if faulted {
+                    self.rho_valid = false;
+                }
+                // C09 rho-bound: a cycle that woke with H allocations is still unfinished after a
+                // cycle_debt call only if fewer than rho*H/(1-rho) allocations were made since
+                if *method == Method::CycleDebt && !faulted && self.rho_valid && obs.phase_after != CPhase::Sleeping && !obs.steps.contains('Z') {
+                    if let Some(p) = self.pacing {
+                        let f = |d: Dy| d.to_f64();
+                        let rho = (f(p.mark) + f(p.trace) + f(p.keep)).max(f(p.drop) + f(p.free)).max(f(p.mark) + f(p.drop) + f(p.keep));
+                        if rho < 1.0 {
+                            let bound = rho * self.total_at_wake as f64 / (1.0 - rho);
+                            if (self.allocs_since_wake as f64) >= bound + 1e-9 && self.total_at_wake > 0 && obs.total_after == 0 && obs.phase_after == CPhase::Sweeping {
+                                // same corner as the stop-the-world finding: the sweep released the last allocation
+                                keyed.push(Violation { property: "C09", key: "stw-returns-sweeping-when-arena-emptied", what: format!("cycle_debt returned while Sweeping with an emptied arena after {} allocations since wake (H = {})", self.allocs_since_wake, self.total_at_wake) });
+                            } else if (self.allocs_since_wake as f64) >= bound + 1e-9 && self.total_at_wake > 0 {
+                                v("C09", format!("cycle woke with H = {} allocations, rho = {rho}: still unfinished ({}) after cycle_debt although {} allocations were made since (bound rho*H/(1-rho) = {bound})", self.total_at_wake, obs.phase_after.name(), self.allocs_since_wake));
+                            }
+                        }
+                    }
                 }
                 if obs.ret == "some" && *cont == Cont::Finalize {
                     self.marked_available = true;
@@ -484,6 +520,10 @@ impl Shadow {
             Op::Enter(k) => {
                 if obs.ret == "ok" {
                     self.cb = Some(*k);
+                    if *k == Cb::Finalize {
+                        self.fin_reach = reach_before.clone();
+                        self.fin_mutated = self.mutated_since_wake;
+                    }
                     if *k == Cb::Finalize && !marked_was {
                         v("C07", "finalize entered without a MarkedArena".into());
                     }
@@ -555,10 +595,10 @@ impl Shadow {
             Op::IsDead(p) => {
                 let id = p.id();
                 let dead = obs.ret == "true";
-                if dead && reach_before.contains(&id) {
-                    v("C07", format!("is_dead({p}) = true for a strongly reachable object"));
+                if dead && self.fin_reach.contains(&id) && reach_before.contains(&id) {
+                    v("C07", format!("is_dead({p}) = true for an object that was strongly reachable when the MarkedArena was handed out"));
                 }
-                if !self.mutated_since_wake && !dead && !reach_before.contains(&id) {
+                if !self.fin_mutated && !self.mutated_since_wake && !dead && !self.fin_reach.contains(&id) && (id as usize) < self.objs.len() {
                     v("C07", format!("is_dead({p}) = false for an unreachable object with no mutation since marking began"));
                 }
             }
